@@ -75,9 +75,8 @@ def _inherit_reweighted(result, operands):
 
 def _jack_chain(operands):
     """Name and configurations of the chain the first observable among the operands lives on."""
-    first = next(entry for op in operands if op.dtype == object for entry in op.flat if isinstance(entry, (Obs, CObs)))
-    if isinstance(first, CObs):
-        first = first.real
+    first = next(part for op in operands if op.dtype == object for entry in op.flat
+                 for part in ((entry.real, entry.imag) if isinstance(entry, CObs) else (entry,)) if isinstance(part, Obs))
     name = first.names[0]
     return name, first.idl[name]
 
